@@ -351,7 +351,7 @@ Section Lemmas.
 
   Lemma resolve_cli c n : resolve T c = Some n -> cli_name n.
   Proof.
-    unfold resolve, cli_name. destruct c as [s|s].
+    unfold resolve, cli_name. destruct c as [s|s|]; [| |discriminate].
     - destruct (filter _ T) as [|o r] eqn:F1.
       + destruct (filter (fun o => o_cli o && prefix s (o_name o)) T) as [|o [|? ?]] eqn:F2; try discriminate.
         intro H. injection H as <-. exists o.
@@ -384,4 +384,8 @@ Section Lemmas.
     - injection E as -> ->. now rewrite R.
     - rewrite (IH _ _ HI R). now destruct (resolve T c0).
   Qed.
+
+  (** with an (empty) positional description the parser hands every word to resolution *)
+  Lemma words_nopos P cli : p_nopos P = true -> words P cli = cli.
+  Proof. unfold words. now intros ->. Qed.
 End Lemmas.
